@@ -194,6 +194,27 @@ theorem double_waker_targets_queue_and_task {s : State} (hr : Reachable s) {d : 
 theorem wake_with_hands_over_queue_or_double {s : State} (hr : Reachable s) (b : Nat) : (s.pcAt b).ws = true :=
   (shapeInv_reachable hr).ws b
 
+/-- the number of further wakers a waker can lead to -/
+def _root_.Desync.Waker.hops : Waker → Nat
+  | .latch _ => 2
+  | .double _ => 1
+  | _ => 0
+
+/-- **Firing an armed latch hands on a waker that is at most one hop from its targets** (one step of the model, any reachable
+state): `DrainWaker::wake` on a latch that is `WillWakeWithWaker` takes the stored waker out and fires exactly it, and that waker is
+the queue's own (`hops = 0`) or a `DoubleWaker` (`hops = 1`, whose two targets have `hops = 0` by
+`double_waker_targets_queue_and_task`) — a wake-up never circulates among latches. -/
+theorem armed_latch_fires_its_waker {s : State} (hr : Reachable s) {a l : Nat} {act : Act} {k : Pc} {w : Waker}
+    (ha : s.acts[a]? = some act) (hc : act.child = none) (hpc : act.pc = .lwCs l k)
+    (hl : s.latches[l]? = some (.willWake, some w)) :
+    stepAct s a = some (({ s with latches := s.latches.set l (.woken, none) }).goto a (.waking [w] k), .csW l) ∧ w.hops ≤ 1 := by
+  refine ⟨?_, ?_⟩
+  · unfold stepAct
+    simp only [ha, hc, hpc, Option.isSome_none, Bool.false_eq_true, ↓reduceIte, hl]
+    have h1 : latchWake .willWake = (.woken, true) := latch.2.1
+    simp [h1]
+  · rcases latch_holds_queue_or_double_waker hr hl with ⟨q, rfl⟩ | ⟨d, rfl⟩ <;> simp [Waker.hops]
+
 /-- firing a `DoubleWaker` empties it and wakes both of its targets, queue first (one step of the model) -/
 theorem double_waker_fires_both {s : State} {a d : Nat} {act : Act} {k : Pc} {w1 w2 : Waker}
     (ha : s.acts[a]? = some act) (hc : act.child = none) (hpc : act.pc = .dwCs d k) (hd : s.doubles[d]? = some (some (w1, w2))) :
